@@ -191,6 +191,31 @@ class SymInt:
     def __rshift__(self, o):
         return self._bin(o, lambda a, b: a / (z3.IntVal(1 << b.as_long()) if z3.is_int_value(b) else _pow2(b)))
 
+    # bitwise operators with one concrete non-negative operand, for a provably non-negative symbolic
+    # value: x & c = sum over the set bits b of c of bit_b(x) * 2^b ; x | c = x + sum (1 - bit_b(x)) * 2^b
+    def _bits(self, c, keep_set):
+        if not (type(c) is int and c >= 0):
+            raise Concretized("bitwise operator on two symbolic operands / negative mask")
+        _engine.side_condition(self.e >= 0, "bitwise operand >= 0")
+        if c & (c + 1) == 0 and keep_set:          # mask of the form 2^k - 1
+            return _mk(self.e % z3.IntVal(c + 1)) if c else 0
+        acc = z3.IntVal(0)
+        b = 0
+        while (c >> b):
+            if (c >> b) & 1:
+                bit = (self.e / z3.IntVal(1 << b)) % 2
+                acc = acc + (bit if keep_set else (1 - bit)) * (1 << b)
+            b += 1
+        return _mk(acc)
+
+    def __and__(self, o): return self._bits(o, True)
+    __rand__ = __and__
+
+    def __or__(self, o):
+        r = self._bits(o, False)
+        return self + r
+    __ror__ = __or__
+
     def __neg__(self): return _mk(-self.e)
     def __pos__(self): return self
 
